@@ -230,6 +230,13 @@ def step (slots : Slots) (line : String) : Slots × String :=
     | some ⟨p, false⟩ => (slots, roundTrip p)
     | some ⟨_, true⟩ => (slots, "rt ok")
     | none => (slots, "bad-op")
+  | ["RDP", s, d] => match slots.get? s with
+    | some ⟨p, false⟩ => match p.encodeG with
+      | .bytes b => match readPacket (Reader.contig b) with
+        | (.pkt q, _) => (slots.insert d ⟨q, false⟩, "rdp " ++ viewLine q)
+        | _ => (slots, "rdp err")
+      | _ => (slots, "rdp err")
+    | _ => (slots, "bad-op")
   | ["SPEC", h] => match bytesOfHex h with
     | some d => match Spec.parse d with
       | some sp => (slots, "spec " ++ Spec.kindName sp.kind ++ " " ++ View.str sp.view)
